@@ -666,6 +666,7 @@ impl<'a, F: Family> Cx<'a, F> {
             OpCode::FromRawAsDyn => k == Kind::RawP,
             OpCode::UnsizeDyn => k == Kind::ArcP && cfg!(feature = "cfg_a"),
             OpCode::ToUnion => matches!(k, Kind::ArcP | Kind::ArcQ),
+            OpCode::ToUnionCross => k == Kind::ArcP,
             OpCode::Erase => matches!(k, Kind::ArcP | Kind::Sl),
             OpCode::Unerase => matches!(k, Kind::ErasedP | Kind::SlE),
             OpCode::IntoThin => k == Kind::Fat,
@@ -737,6 +738,11 @@ impl<'a, F: Family> Cx<'a, F> {
             }
             (OpCode::ToUnion, Handle::ArcP(x)) => Handle::UnionP(ArcUnion::from_first(x)),
             (OpCode::ToUnion, Handle::ArcQ(x)) => Handle::UnionQ(ArcUnion::from_second(x)),
+            // families with P == Q: the same allocation held as the *second* variant
+            (OpCode::ToUnionCross, Handle::ArcP(x)) => match F::p_as_q(x) {
+                Ok(q) => Handle::UnionQ(ArcUnion::from_second(q)),
+                Err(p) => Handle::ArcP(p),
+            },
             (OpCode::Erase, Handle::ArcP(x)) => Handle::ErasedP(x.into()),
             (OpCode::Erase, Handle::Sl(x)) => Handle::SlE(x.into()),
             (OpCode::Unerase, Handle::ErasedP(x)) => Handle::ArcP(x.into()),
@@ -1019,7 +1025,12 @@ impl<'a, F: Family> Cx<'a, F> {
             } else {
                 exp.drops.push(p.raw());
             }
-            tracked(|| drop(p));
+            let prev = set_drop_ctx(true);
+            let r = guarded(|| drop(p));
+            set_drop_ctx(prev);
+            if let Err(p) = r {
+                drop(p);
+            }
             return Done(exp);
         }
         let (last, uninit, written) = self.env.m(|m| {
@@ -1064,7 +1075,11 @@ impl<'a, F: Family> Cx<'a, F> {
                 probes::hit(P_DESTROYER_NOT_CREATOR);
             }
         }
-        tracked(|| match h {
+        // a destructor that panics (injected) must change nothing about the release: every other
+        // piece is still destroyed and the block still goes back to the allocator
+        let armed = !matches!(h.kind(), Kind::SwapP | Kind::SwapThin);
+        let prev = set_drop_ctx(armed);
+        let r = guarded(|| match h {
             Handle::RawP(p) => drop(unsafe { Arc::from_raw(p.0) }),
             Handle::RawSl(p) => drop(unsafe { Arc::from_raw_slice(p.0) }),
             Handle::RawDyn(p) => drop(unsafe { Arc::from_raw(p.0) }),
@@ -1075,6 +1090,13 @@ impl<'a, F: Family> Cx<'a, F> {
             Handle::SwapThin(s) => untracked(|| drop(s)),
             other => drop(other),
         });
+        set_drop_ctx(prev);
+        if let Err(p) = r {
+            if !matches!(is_injected(&p), Some((Cb::Drop, _))) {
+                violation("unexpected-panic", format!("`{}` panicked: {}", op.text(), panic_msg(&p)));
+            }
+            drop(p);
+        }
         Done(exp)
     }
 
@@ -1126,7 +1148,7 @@ pub fn dispatch<F: Family>(cx: &mut Cx<'_, F>, op: &Op) -> Outcome {
         | SlMuNew | UniSlMuNew | UniHsMuNew | UniFatMuNew => cx.c_slice(op),
         HugeNew => cx.c_huge(op),
         Clone | BorrowCloneArc | OffCloneArc | WithArcClone | SwapLoadFull => cx.o_clone(op),
-        ToOffset | FromOffset | IntoRaw | FromRaw | FromRawAsDyn | UnsizeDyn | ToUnion | Erase | Unerase | IntoThin | FromThin
+        ToOffset | FromOffset | IntoRaw | FromRaw | FromRawAsDyn | UnsizeDyn | ToUnion | ToUnionCross | Erase | Unerase | IntoThin | FromThin
         | ProtFromThin | ProtIntoThin | Shareable | SwapWrap | SwapUnwrap | RefCntTrip => cx.o_convert(op),
         MoveSlot => cx.o_move(op),
         Read | Counts | CmpEq | CmpOrd | HashOp | FmtOp | PtrEq | WithArcNoop => cx.o_inspect(op),
